@@ -57,6 +57,56 @@ pub fn gen(rng: &mut Rng, n: usize, thorough: bool, emit: &mut dyn FnMut(String)
             }
         }
     }
+    // min_size in the upper half of the u64 range: a small file is never big enough
+    for min in [(1u64 << 63) - 1, 1 << 63, (1 << 63) + 1, u64::MAX] {
+        for pre in [None, Some(0u64), Some(1), Some(32)] {
+            for append in [true, false] {
+                let case = Case {
+                    append,
+                    pre_active: pre,
+                    pre_arch: vec![(1, 3), (2, 4)],
+                    trig: TrigSpec::Startup(min),
+                    roll: RollSpec::Fw { base: 1, count: 2, pat: 0 },
+                    clock0: 1_700_000_000,
+                };
+                let ops = vec![
+                    RecSpec::Bin { id: 1, sizes: vec![6] }.render(),
+                    RecSpec::Bin { id: 2, sizes: vec![1] }.render(),
+                    "r".to_owned(),
+                    RecSpec::Bin { id: 3, sizes: vec![2] }.render(),
+                ];
+                emit(format!("seq\t{}\t{}", case.render(), enc_list(",", &ops)));
+            }
+        }
+    }
+    // the one rotation request: the roller does its work and reports Err on the first record
+    for &min in &[0u64, 1, 5] {
+        for append in [true, false] {
+            for roll in [RollSpec::Delete, RollSpec::Fw { base: 1, count: 2, pat: 0 }, RollSpec::Fw { base: 0, count: 3, pat: 2 }] {
+                let pre_arch = match &roll {
+                    RollSpec::Fw { base, .. } => vec![(*base, 3u64), (*base + 1, 4u64)],
+                    RollSpec::Delete => vec![],
+                };
+                let case = Case {
+                    append,
+                    pre_active: Some(6),
+                    pre_arch,
+                    trig: TrigSpec::Startup(min),
+                    roll: roll.clone(),
+                    clock0: 1_700_000_000,
+                };
+                let ops = vec![
+                    format!("g!{}", RecSpec::Bin { id: 1, sizes: vec![6] }.render()),
+                    RecSpec::Bin { id: 2, sizes: vec![2] }.render(),
+                    format!("g!{}", RecSpec::Bin { id: 3, sizes: vec![1] }.render()),
+                    "r".to_owned(),
+                    format!("g!{}", RecSpec::Bin { id: 4, sizes: vec![2, 3] }.render()),
+                    RecSpec::Bin { id: 5, sizes: vec![1] }.render(),
+                ];
+                emit(format!("seq\t{}\t{}", case.render(), enc_list(",", &ops)));
+            }
+        }
+    }
     for _ in 0..n {
         emit(c05::gen_seq_case(rng, thorough, TrigChoice::Startup));
     }
